@@ -35,9 +35,7 @@ func main() {
 	case "child":
 		a := os.Args[2:]
 		seed, _ := strconv.ParseInt(a[2], 10, 64)
-		k, _ := strconv.Atoi(a[3])
-		n, _ := strconv.Atoi(a[4])
-		os.Exit(core.ChildMain(a[0], a[1], seed, k, n, a[5], a[6]))
+		os.Exit(core.ChildMain(a[0], a[1], seed, a[3], a[4], a[5]))
 	case "run":
 		start := time.Now()
 		id, tier := os.Args[2], os.Args[3]
